@@ -185,6 +185,8 @@ def scenario(family, ntp, first_tp=0, parallel=None, n_cpu=None):
     elif family == 'pin':
         kw['pinmodel'] = dict(PINMODEL)
         mats = PINMATS
+        # a user film correlation for the duct wall with an exponent above one (a list that lives in the input)
+        kw['htc_params_duct'] = [0.0005, 1.05, 0.8, 7.0]
     elif family == 'hotspot':
         # film coefficient given: the hot-spot family does not rely on the
         # default that make() computes
